@@ -584,6 +584,32 @@ def run(ctx):
                     if msg:
                         oracle_hits.append((dict(info, impl=val), msg))
 
+    # ---- the same wide-range inputs on KSFunction (regression of finding F38: the unshifted log(sum(exp(rho*x))) overflowed to inf for
+    #      rho*max(x) > 709 and underflowed to log(0) for rho*min(x) < -745); value inside the bounds and a finite sensitivity that sums to dfdy
+    for par in [20.0, -20.0, 5.0, -5.0, 2.0, -2.0]:
+        for xs in wide + [[40.0, 50.0, 1000.0], [800.0, 900.0]]:
+            xs = np.array(xs)
+            sig = pym.Signal('x', state=xs.copy())
+            info = dict(site='KSFunction.aggregation_function', pred='aggregation bounds (wide range)', kind='KSFunction', parameter=par, x=xs.tolist())
+            try:
+                mod = make_module(pym, 'KSFunction', sig, par)
+                mod.response()
+                val = float(mod.sig_out[0].state)
+                mod.sig_out[0].sensitivity = 1.0
+                mod.sensitivity()
+                g = np.asarray(sig.sensitivity, dtype=float)
+            except Exception as e:
+                oracle_hits.append((dict(info, impl=type(e).__name__), 'aggregation raised ' + type(e).__name__))
+                continue
+            ctx.count(f'agg-wide:KSFunction:{"pos" if par > 0 else "neg"}')
+            ctx.search_evaluations += 1
+            msg = agg_bounds_oracle('KSFunction', par, xs, val)
+            if msg:
+                oracle_hits.append((dict(info, impl=val), msg))
+            elif not (np.all(np.isfinite(g)) and np.all(g >= 0) and abs(g.sum() - 1.0) <= 1e-9):
+                oracle_hits.append((dict(info, site='KSFunction.aggregation_derivative', pred='weights are non-negative and sum to one (wide range)',
+                                         impl=g.tolist()), 'KS sensitivity weights not a partition of unity'))
+
     # ---- Aggregation pipeline: histories of response() calls with scaling and active set; the aggregation parameter
     #      (p / rho / alpha, also its sign) may be RE-ASSIGNED on the module between the calls (continuation)
     fd_checked = [0]
